@@ -575,9 +575,16 @@ def run(ctx):
     big_sentinels(ctx)
     long_axes(ctx)
     attr_histories(ctx)
+    from . import spell_common
+    spell_common.run(ctx, "C17")
+
 
 
 def replay(sub, case, p):
+    if case.get("kind") == "spelling":
+        from . import spell_common
+        spell_common.run(p, "C17")
+        return
     kind = case["kind"]
     if kind == "attr_history":
         attr_histories(p)
